@@ -25,6 +25,16 @@ func RenderPackageInstance(
 	if err != nil {
 		return nil, err
 	}
+	// RenderObjectSetTemplateSpec relies on condition map annotations being valid.
+	for i := range objects {
+		if _, err := parseConditionMapAnnotation(&objects[i]); err != nil {
+			return nil, packagetypes.ViolationError{
+				Reason:  packagetypes.ViolationReasonInvalidConditionMap,
+				Details: err.Error(),
+				Subject: objects[i].GetKind() + " " + objects[i].GetName(),
+			}
+		}
+	}
 	pkgInst := &packagetypes.PackageInstance{
 		Manifest:     pkg.Manifest,
 		ManifestLock: pkg.ManifestLock,
